@@ -160,6 +160,13 @@ pub fn c12_fresh_counter() {
 #[cfg(all(test, verif_replay))]
 #[test]
 fn verif_replay_entry() {
+    let hn = std::env::var("VERIF_REPLAY_HARNESS").unwrap_or_default();
+    if hn == "validate_sequence" || hn == "cleanup" {
+        let case: serde_json::Value = serde_json::from_str(&std::env::var("VERIF_REPLAY_CASE").unwrap_or_default()).expect("case json");
+        let obs = if hn == "cleanup" { driver::cleanup(&case) } else { driver::validate_sequence(&case) };
+        println!("VERIF-OBS {}", obs);
+        return;
+    }
     vp::load_vals_from_env();
     match std::env::var("VERIF_REPLAY_HARNESS").unwrap_or_default().as_str() {
         "c12_step_h0" => c12_step_h0(),
@@ -170,5 +177,122 @@ fn verif_replay_entry() {
         "c12_step_h8" => c12_step_h8(),
         "c12_fresh_counter" => c12_fresh_counter(),
         other => panic!("unknown harness {other}"),
+    }
+}
+
+// ---------------------------------------------------------------- native observation driver for the async entry points (engine M replays)
+#[cfg(all(test, verif_replay))]
+mod driver {
+    use super::*;
+    use serde_json::{json, Map, Value};
+
+    fn u(case: &Value, k: &str) -> u64 {
+        case.get(k).and_then(|v| v.as_u64()).unwrap_or(0)
+    }
+    fn b(case: &Value, k: &str) -> bool {
+        case.get(k).and_then(|v| v.as_bool()).unwrap_or(false)
+    }
+    fn bytes32(case: &Value, name: &str) -> [u8; 32] {
+        let mut o = [0u8; 32];
+        for i in 0..32 {
+            o[i] = u(case, &format!("{name}.{i}")) as u8;
+        }
+        o
+    }
+    const HCAP: usize = 2;
+
+    /// stored counter from the pinned leaves of a probed map slot (flatten order of checks/c12_async.py::counter_template)
+    fn slot_counter(case: &Value, name: &str) -> Option<PeerCounter> {
+        if !b(case, &format!("{name}.present")) {
+            return None;
+        }
+        let v = |i: usize| u(case, &format!("{name}.v{i}"));
+        let hlen = (v(2) as usize).min(HCAP);
+        let mut hist = Vec::new();
+        for e in 0..hlen {
+            let base = 3 + e * 34;
+            let mut h = [0u8; 32];
+            for k in 0..32 {
+                h[k] = v(base + 2 + k) as u8;
+            }
+            hist.push(SequenceEntry { sequence: v(base), timestamp: v(base + 1), message_hash: h });
+        }
+        let tail = 3 + HCAP * 34;
+        Some(PeerCounter { current_sequence: v(0), last_valid_sequence: v(1), sequence_history: hist, last_updated: v(tail), replay_attempts: v(tail + 1), sequence_gaps: v(tail + 2) })
+    }
+    fn obs_counter(c: Option<&PeerCounter>) -> Value {
+        match c {
+            None => Value::Null,
+            Some(c) => json!({"current": c.current_sequence, "last": c.last_valid_sequence, "updated": c.last_updated, "replay": c.replay_attempts, "gaps": c.sequence_gaps,
+                              "history": c.sequence_history.iter().map(|e| json!([e.sequence, e.timestamp, e.message_hash.to_vec()])).collect::<Vec<_>>()}),
+        }
+    }
+
+    pub fn cleanup(case: &Value) -> Value {
+        let users = [("other", UserId { hash: bytes32(case, "o") }), ("cand", UserId { hash: bytes32(case, "u") })];
+        let mut map = HashMap::new();
+        for (label, uid) in &users {
+            if let Some(c) = slot_counter(case, &format!("M@{label}")) {
+                map.insert(uid.clone(), c);
+            }
+        }
+        let sys = MonotonicCounterSystem {
+            counters: Arc::new(RwLock::new(map)), storage_path: PathBuf::new(), sync_interval: Duration::from_secs(30), sync_task: None,
+            stats: Arc::new(Mutex::new(CounterStats::default())),
+        };
+        let rt = tokio::runtime::Builder::new_current_thread().build().unwrap();
+        vp::clock::reset();
+        vp::clock::push_real(u(case, "now.s"), 0);
+        vp::clock::arm(true);
+        let r = rt.block_on(sys.cleanup_old_sequences());
+        vp::clock::arm(false);
+        vp::clock::reset();
+        let mut out = Map::new();
+        out.insert("ok".into(), json!(r.is_ok()));
+        let m = sys.counters.read().unwrap();
+        for (label, uid) in &users {
+            out.insert(format!("post@{label}"), obs_counter(m.get(uid)));
+        }
+        Value::Object(out)
+    }
+
+    pub fn validate_sequence(case: &Value) -> Value {
+        let users = [("other", UserId { hash: bytes32(case, "o") }), ("cand", UserId { hash: bytes32(case, "u") })];
+        let mut map = HashMap::new();
+        for (label, uid) in &users {
+            if let Some(c) = slot_counter(case, &format!("M@{label}")) {
+                map.insert(uid.clone(), c);
+            }
+        }
+        let stats = CounterStats {
+            total_processed: u(case, "stats.total_processed"), total_replays: u(case, "stats.total_replays"), total_gaps: u(case, "stats.total_gaps"),
+            peers_tracked: u(case, "stats.peers_tracked") as usize, persistence_ops: u(case, "stats.persistence_ops"),
+            avg_validation_time_us: u(case, "stats.avg_validation_time_us"), cache_hits: u(case, "stats.cache_hits"), cache_misses: u(case, "stats.cache_misses"),
+        };
+        let sys = MonotonicCounterSystem {
+            counters: Arc::new(RwLock::new(map)), storage_path: PathBuf::new(), sync_interval: Duration::from_secs(30), sync_task: None, stats: Arc::new(Mutex::new(stats)),
+        };
+        let rt = tokio::runtime::Builder::new_current_thread().build().unwrap();
+        vp::clock::reset();
+        vp::clock::push_real(u(case, "now.s"), 0);
+        vp::clock::arm(true);
+        let r = rt.block_on(sys.validate_sequence(&users[1].1, u(case, "seq"), bytes32(case, "hash")));
+        vp::clock::arm(false);
+        vp::clock::reset();
+        let mut out = Map::new();
+        out.insert("ok".into(), json!(r.is_ok()));
+        out.insert("result".into(), match &r {
+            Ok(SequenceValidationResult::Valid) => json!("Valid"),
+            Ok(SequenceValidationResult::Replay) => json!("Replay"),
+            Ok(SequenceValidationResult::TooOld) => json!("TooOld"),
+            Ok(SequenceValidationResult::Gap { .. }) => json!("Gap"),
+            Ok(SequenceValidationResult::FromFuture) => json!("FromFuture"),
+            Err(_) => Value::Null,
+        });
+        let m = sys.counters.read().unwrap();
+        for (label, uid) in &users {
+            out.insert(format!("post@{label}"), obs_counter(m.get(uid)));
+        }
+        Value::Object(out)
     }
 }
